@@ -49,6 +49,7 @@ impl Num for BigDecimal {
 
             // split and parse exponent field
             Some(loc) => {
+                verif_probe!(Parse_Exponent);
                 // slice up to `loc` and 1 after to skip the 'e' char
                 let (base, e_exp) = s.split_at(loc);
                 (base, i128::from_str(&e_exp[1..])?)
@@ -61,6 +62,7 @@ impl Num for BigDecimal {
         }
 
         let mut digit_buffer = String::new();
+        verif_probe_if!(!base_part.contains('.'), Parse_NoDot);
 
         let last_digit_loc = base_part.len() - 1;
 
@@ -70,10 +72,12 @@ impl Num for BigDecimal {
             None => (base_part, 0),
             // dot at last digit, pass all preceding digits to BigInt
             Some(loc) if loc == last_digit_loc => {
+                verif_probe!(Parse_DotLast);
                 (&base_part[..last_digit_loc], 0)
             }
             // decimal point found - necessary copy into new string buffer
             Some(loc) => {
+                verif_probe!(Parse_DotInside);
                 // split into leading and trailing digits
                 let (lead, trail) = (&base_part[..loc], &base_part[loc + 1..]);
 
@@ -134,6 +138,8 @@ impl ToPrimitive for BigDecimal {
 
 impl ToPrimitive for BigDecimalRef<'_> {
     fn to_i64(&self) -> Option<i64> {
+        verif_probe_if!(self.scale == 0 || self.sign() == Sign::NoSign, ToInt_Fast);
+        verif_probe_if!(self.scale != 0 && self.sign() != Sign::NoSign, ToInt_Rescale);
         match self.sign() {
             Sign::Plus if self.scale == 0 => self.digits.to_i64(),
             Sign::Minus if self.scale == 0 => {
@@ -150,6 +156,8 @@ impl ToPrimitive for BigDecimalRef<'_> {
         }
     }
     fn to_i128(&self) -> Option<i128> {
+        verif_probe_if!(self.scale == 0 || self.sign() == Sign::NoSign, ToInt_Fast);
+        verif_probe_if!(self.scale != 0 && self.sign() != Sign::NoSign, ToInt_Rescale);
         match self.sign() {
             Sign::Plus if self.scale == 0 => self.digits.to_i128(),
             Sign::Minus if self.scale == 0 => {
@@ -166,6 +174,8 @@ impl ToPrimitive for BigDecimalRef<'_> {
         }
     }
     fn to_u64(&self) -> Option<u64> {
+        verif_probe_if!(self.scale == 0 || self.sign() != Sign::Plus, ToInt_Fast);
+        verif_probe_if!(self.scale != 0 && self.sign() == Sign::Plus, ToInt_Rescale);
         match self.sign() {
             Sign::Plus if self.scale == 0 => self.digits.to_u64(),
             Sign::Plus => self.to_owned_with_scale(0).int_val.to_u64(),
@@ -174,6 +184,8 @@ impl ToPrimitive for BigDecimalRef<'_> {
         }
     }
     fn to_u128(&self) -> Option<u128> {
+        verif_probe_if!(self.scale == 0 || self.sign() != Sign::Plus, ToInt_Fast);
+        verif_probe_if!(self.scale != 0 && self.sign() == Sign::Plus, ToInt_Rescale);
         match self.sign() {
             Sign::Plus if self.scale == 0 => self.digits.to_u128(),
             Sign::Plus => self.to_owned_with_scale(0).int_val.to_u128(),
@@ -186,9 +198,11 @@ impl ToPrimitive for BigDecimalRef<'_> {
         let copy_sign_to_float = |f: f64| if self.sign == Sign::Minus { f.neg() } else { f };
 
         if self.digits.is_zero() {
+            verif_probe!(ToF64_Zero);
             return Some(0.0);
         }
         if self.scale == 0 {
+            verif_probe!(ToF64_Scale0);
             return self.digits.to_f64().map(copy_sign_to_float);
         }
 
@@ -206,6 +220,7 @@ impl ToPrimitive for BigDecimalRef<'_> {
         let ten_to_19 = 10u64.pow(19);
         let iter_count = digits_to_remove / 19;
         for _ in 0..iter_count {
+            verif_probe!(ToF64_Trim);
             *int_cow.to_mut() /= ten_to_19;
             scale -= 19;
         }
@@ -213,11 +228,13 @@ impl ToPrimitive for BigDecimalRef<'_> {
         match scale.to_i32().and_then(|x| x.checked_neg()) {
             Some(pow) if 0 <= pow => {
                 // 'simple' integer case
+                verif_probe!(ToF64_Powi);
                 let f = int_cow.to_f64().map(copy_sign_to_float)?;
                 (f * powi(10.0, pow)).into()
             }
             Some(exp) => {
                 // format decimal as floating point and let the default parser generate the f64
+                verif_probe!(ToF64_String);
                 #[cfg(not(feature = "std"))]
                 {
                     let s = format!("{}e{}", int_cow, exp);
@@ -242,6 +259,7 @@ impl ToPrimitive for BigDecimalRef<'_> {
             }
             None => {
                 // exponenent too big for i32: return appropriate infinity
+                verif_probe!(ToF64_Infinity);
                 let result = if self.sign != Sign::Minus {
                     f64::INFINITY
                 } else {
